@@ -306,6 +306,40 @@ def wf_wait_behind_busy(timeout: float) -> type:
     ])
 
 
+def wf_pool_wait_requirements(k: int, w: int) -> type:
+    """every invocation of a pool step waits for ITS OWN answer (requirements key = its uid) and leaves the waiter id to the
+    library (default id): the waits are different waits, each answer must reach the invocation that asked for it"""
+    async def start(self, ctx, ev, inv):  # noqa: ANN001
+        for i in range(k):
+            ctx.send_event(Work(uid=i))
+        return None
+
+    async def work(self, ctx, ev, inv):  # noqa: ANN001
+        r = await ctx.wait_for_event(Resp, requirements={"key": str(ev.uid)}, timeout=None)
+        WAIT_RESULTS.append((f"req{ev.uid}", r))
+        return Done(uid=100 * ev.uid + r.uid)
+
+    async def fin(self, ctx, ev, inv):  # noqa: ANN001
+        r = ctx.collect_events(ev, [Done] * k)
+        if r is None:
+            return None
+        return StopEvent(result=sorted(e.uid for e in r))
+
+    WAIT_RESULTS.clear()
+    return make_workflow("PoolWaitReq", [
+        make_step("start", [StartEvent], [Work, None], start),
+        make_step("work", [Work], [Done], work, num_workers=w),
+        make_step("fin", [Done], [StopEvent, None], fin, num_workers=1),
+    ])
+
+
+def pool_req_scripts(k: int) -> Any:
+    def mk(state: dict[str, Any]) -> list[list[Action]]:
+        return [[Action(f"ext Resp key={i}", (lambda i=i: state["hd"].ctx.send_event(Resp(uid=7 + i, key=str(i)))))] for i in range(k)]
+
+    return mk
+
+
 def wf_retry_siblings() -> type:
     """a step with a retry policy fails on the first attempt of every input while a sibling accepts the same type: the
     re-queued input is for the failed step only (one input was broadcast, one was addressed to the flaky step)"""
@@ -442,6 +476,8 @@ def specs(tier: str) -> list[Spec]:
              max_dev=(3 if q else 5), tags=("waiter", "pool")),
         Spec("wait_behind_busy(timeout=5)", {"waiter_steps": ["work"], "send_when_waiting": True, "records_wait_results": True},
              lambda: wf_wait_behind_busy(5.0), max_dev=(3 if q else None), tags=("pool", "waiter", "delay")),
+        Spec("pool_wait_own_requirements(k=2,w=2)", {"waiter_steps": ["work"], "answers_when_all_wait": 2}, lambda: wf_pool_wait_requirements(2, 2),
+             max_dev=(3 if q else None), tags=("pool", "waiter")),
         Spec("retry_siblings", {"waiter_steps": []}, wf_retry_siblings, max_dev=(3 if q else None), tags=("retry",)),
         Spec("request_event_consumed_by_a_step", {"waiter_steps": []}, lambda: wf_request_consumed(False), tags=("hitl",)),
         Spec("request_event_awaited_by_a_step", {"waiter_steps": ["waits"], "wait_types": ["Ask"]}, lambda: wf_request_consumed(True),
@@ -459,6 +495,13 @@ def _oracle() -> Oracle:
         if not hasattr(h, "c02_waiter_steps"):
             h.c02_waiter_steps = set(h.spec.params.get("waiter_steps", ["sw"]))
             h.c02_wait_types = {Ask} if h.spec.params.get("wait_types") == ["Ask"] else {Resp}
+        if h.spec.params.get("answers_when_all_wait") and not getattr(h, "c02_resp_script", False) and h.runners:
+            # the client answers once every invocation waits (an answer sent before its waiter exists is dropped by design)
+            n_waiting = sum(1 for i in h.invocations if i.step == "work" and type(i.exc).__name__ == "WaitingForEvent")
+            if n_waiting >= h.spec.params["answers_when_all_wait"]:
+                h.c02_resp_script = True
+                for sc in pool_req_scripts(h.spec.params["answers_when_all_wait"])(h.state):
+                    h.state["e"].add_script(sc)
         if h.spec.params.get("send_when_waiting") and not getattr(h, "c02_resp_script", False) and h.runners:
             # the client answers once the run waits (an answer sent before the waiter exists is dropped by design)
             if any(ws.collected_waiters for ws in h.runners[-1].state.workers.values()):
